@@ -133,7 +133,8 @@ def gen_plan(rng: Rng, tier: str, faulty: bool, profile: str = "loader",
     n_ranks = len(world["files"])
     sessions = []
     n_sessions = rng.weighted([(1, 5), (2, 3), (3, 1)])
-    heavy = bool((overrides or {}).get("name_explosion"))
+    ov = overrides or {}
+    heavy = bool(ov.get("name_explosion") or ov.get("symbol_family") or ov.get("wide_ops", 0) > 5000 or ov.get("wide_ops") == -1)
     if heavy:
         n_sessions = 1
     for si in range(n_sessions):
